@@ -795,4 +795,54 @@ theorem assembly_core (env : Env) (v : Stmt → Entry)
         (by rw [hC, ext_dir]; exact hnd'),
       D_post, hC, ext_ext]
 
+theorem argOf?_of_all {X Y : Stmt} {k : String} (h : X.all k = Y.all k) : X.argOf? k = Y.argOf? k := by
+  unfold Stmt.argOf? Stmt.one?
+  rw [← List.head?_filter, ← List.head?_filter]
+  unfold Stmt.all at h
+  rw [h]
+
+theorem sameData_desc (root : Mod) (O m : Stmt) (hO : O.kw = "module") (hm : m.kw = "module") (harg : O.arg = m.arg)
+    (hd : O.argOf? "description" = m.argOf? "description") :
+    SameData (descE O (e0 root O)).d (descE m (e0 root m)).d := by
+  unfold descE
+  rw [hd]
+  unfold SameData e0 baseData
+  cases m.argOf? "description" <;> simp [hO, hm, harg, Entry.withD, Entry.d]
+
+/-- **The assembly.**  When the entry of the unsplit module statement over the values `v` is error
+free, so are the entries of the submodules and of the owner (its own statements before the include
+step, the submodules' entries merged, its own statements after the include step), and the owner's
+entry has the unsplit one's data and its children in another order. -/
+theorem assembly (env : Env) (v : Stmt → Entry) (s : Split) (ht : TextOK s)
+    (hshape : ∀ c, Clean (v c) → c.kw ∈ nameKws → (v c).name = c.arg)
+    (hclean : Clean (pmod env v s.m s.m.stmt)) :
+    Clean (powner env v s.m s.owner.stmt (s.subs.map (·.stmt))) ∧
+    (∀ sb ∈ s.subs, Clean (pmod env v s.m sb.stmt)) ∧
+    (powner env v s.m s.owner.stmt (s.subs.map (·.stmt))).dir.Perm (pmod env v s.m s.m.stmt).dir ∧
+    SameData (powner env v s.m s.owner.stmt (s.subs.map (·.stmt))).d (pmod env v s.m s.m.stmt).d ∧
+    (powner env v s.m s.owner.stmt (s.subs.map (·.stmt))).inp = [] ∧ (pmod env v s.m s.m.stmt).inp = [] ∧
+    (powner env v s.m s.owner.stmt (s.subs.map (·.stmt))).out = [] ∧ (pmod env v s.m s.m.stmt).out = [] := by
+  have hbody : ∀ kw ∈ bodyKws,
+      (s.m.stmt.all kw).Perm ((s.owner.stmt :: s.subs.map (·.stmt)).flatMap (·.all kw)) := by
+    intro kw hkw
+    have := ht.body kw hkw
+    simpa [Split.parts, List.flatMap_cons, List.flatMap_map] using this
+  obtain ⟨hM, hS, L, hL, hLc, hP⟩ := assembly_core env v hshape s.m s.m.stmt s.owner.stmt (s.subs.map (·.stmt))
+    ht.owner_kw
+    (by intro X hX; obtain ⟨sb, hsb, rfl⟩ := List.mem_map.1 hX; exact ht.sub_kw sb hsb) hbody
+    (ht.kept "deviation" (by decide))
+    (by intro X hX; obtain ⟨sb, hsb, rfl⟩ := List.mem_map.1 hX; exact (ht.sub_no_aug sb hsb).2.1) hclean
+  rw [hP, hM]
+  refine ⟨?_, fun sb hsb => hS _ (List.mem_map_of_mem hsb), ?_, ?_, ?_, ?_, ?_, ?_⟩
+  · rw [clean_descE, clean_ext]
+    exact ⟨clean_e0 _ _ (Or.inl ht.owner_kw), hLc⟩
+  · rw [descE_dir, descE_dir, ext_dir, ext_dir]
+    exact hL
+  · rw [descE_ext_d, descE_ext_d]
+    exact sameData_desc s.m _ _ ht.owner_kw ht.m_kw ht.owner_arg (argOf?_of_all (ht.kept "description" (by decide)))
+  · rw [descE_inp, ext_inp]; rfl
+  · rw [descE_inp, ext_inp]; rfl
+  · rw [descE_out, ext_out]; rfl
+  · rw [descE_out, ext_out]; rfl
+
 end Goyang.Lemmas.IncludeAsm
